@@ -487,15 +487,15 @@ void Body(Src& s, Stats& st, bool tsan_variant)
         World w{sim, s, st, std::make_shared<Recorder>()};
         w.replay_tip = sim.TipHash();
         for (auto& [h, b] : sim.block_store) for (auto& t : b->vtx) w.Remember(t);
-        btcsignals::scoped_connection tip_conn = uiInterface.NotifyBlockTip.connect([&w](SynchronizationState, const CBlockIndex& index, double) { w.announced.push_back(index.GetBlockHash()); });
+        btcsignals::scoped_connection tip_conn{uiInterface.NotifyBlockTip.connect([&w](SynchronizationState, const CBlockIndex& index, double) { w.announced.push_back(index.GetBlockHash()); })};
         sim.m_node.validation_signals->RegisterSharedValidationInterface(w.rec);
         sched::Arm(sched_seed, intensity);
         for (unsigned i = 0; i < nops && !s.exhausted(); ++i) {
             w.ops++;
             sched::Point("op");
             unsigned k = s.range<unsigned>(0, 15);
-            if (k <= 6) w.OpSubmit();
-            else if (k <= 9) w.OpMine();
+            if (k <= 5) w.OpSubmit();
+            else if (k <= 8) w.OpMine();
             else if (k <= 11) w.OpBranch(false);
             else if (k == 12) w.OpBranch(true);
             else if (k <= 14) w.OpInvalidate();
